@@ -91,7 +91,9 @@ class Rotation:
                 mats.append(provs[0][3])   # from_euler(seq, as_euler(seq)) == R  (library contract)
                 continue
             mats.append(euler_matrix(seq, [as_cs(a, degrees) for a in row]))
-        return cls(mats, single)
+        r = cls(mats, single)
+        r.euler_src = (seq, [list(row) for row in arr])
+        return r
 
     @classmethod
     def from_matrix(cls, m):
@@ -175,6 +177,8 @@ class Rotation:
         M = self.mats * n if len(self.mats) == 1 else self.mats
         VV = list(V) * n if len(V) == 1 else list(V)
         out = np.empty((n, 3), dtype=object)
+        for m_ in self.mats:
+            orthogonality_lemmas(m_)
         for i in range(n):
             A = mT(M[i]) if inverse else M[i]
             r = mv(A, [zreal(VV[i][k]) for k in range(3)])
@@ -202,12 +206,41 @@ class Rotation:
         c = ctx()
         out = np.empty((len(self.mats), 3), dtype=object)
         proper = seq[0].lower() == seq[2].lower()
+        memo = c.__dict__.setdefault("_euler_memo", {})
+        src = getattr(self, "euler_src", None)
         for i, M in enumerate(self.mats):
+            if src is not None and src[0] == seq and proper and i < len(src[1]) and all(isinstance(a, SAngle) and a._v is not None for a in src[1][i]):
+                a0, a1, a2 = src[1][i]
+                from .core import SBool
+                canonical = z3.And(a0.v > -180, a0.v <= 180, a1.v > 0, a1.v < 180, a2.v > -180, a2.v <= 180)
+                if bool(SBool(canonical)):
+                    # away from gimbal lock the decomposition into canonical ranges is unique: the input angles themselves
+                    for j, a in enumerate((a0, a1, a2)):
+                        out[i, j] = SAngle(a.c, a.s, "deg" if degrees else "rad", (next(_prov), seq, j, M))._carry(a._v, a)
+                    continue
+            mkey = (seq, tuple(M[r][q].get_id() for r in range(3) for q in range(3)))
+            hit = memo.get(mkey)
+            if hit is not None and all(hit[0][r][q].eq(M[r][q]) for r in range(3) for q in range(3)):
+                # as_euler is a function: the same rotation gives the same angles
+                for j in range(3):
+                    a = hit[1][j]
+                    out[i, j] = SAngle(a.c, a.s, "deg" if degrees else "rad", a.prov)._carry(a._v, a)
+                continue
             k = next(_prov)
             angs = []
             for j in range(3):
                 a = SAngle.fresh("eul%d_%d!%d" % (k, j, next(c.fresh)), "deg" if degrees else "rad")
+                # numeric value in degrees with scipy's documented ranges
+                vv = z3.Real("eulv%d_%d!%d" % (k, j, next(c.fresh)))
+                a._v = vv
+                rng = (z3.And(vv >= 0, vv <= 180) if proper else z3.And(vv >= -90, vv <= 90)) if j == 1 else z3.And(vv > -180, vv <= 180)
+                # range and link between value and circle position (quadrant boundaries); assumed on first numeric use
+                a._vax = [rng, z3.And(z3.Implies(vv == 0, z3.And(a.c == 1, a.s == 0)), z3.Implies(z3.And(a.c == 1, a.s == 0), vv == 0),
+                                      z3.Implies(vv == 180, z3.And(a.c == -1, a.s == 0)), z3.Implies(z3.And(a.c == -1, a.s == 0), vv == 180),
+                                      z3.Implies(z3.And(vv > 0, vv < 180), a.s > 0), z3.Implies(vv < 0, a.s < 0),
+                                      z3.Implies(a.s > 0, z3.And(vv > 0, vv < 180)), z3.Implies(a.s < 0, vv < 0))]
                 angs.append(a)
+            memo[mkey] = (M, angs)
             E = euler_matrix(seq, [(a.c, a.s) for a in angs])
             c.assume(z3.And([E[r][q] == M[r][q] for r in range(3) for q in range(3)]))
             c.assume(angs[1].s >= 0 if proper else angs[1].c >= 0)
@@ -217,17 +250,30 @@ class Rotation:
         return out[0] if self.single else out
 
     def as_quat(self, canonical=False, scalar_first=False):
-        """Fresh unit quaternion (x,y,z,w) whose rotation matrix equals the rotation (either sign)."""
+        """Fresh unit quaternion (x,y,z,w) whose rotation matrix equals the rotation (either sign).
+        Hinted lemma (proved by the solver once per process, then instantiated for every pair of quaternions of the
+        path): for unit quaternions p, q with matrices P, Q:  4 <p,q>^2 = 1 + trace(P^T Q)."""
         c = ctx()
         out = np.empty((len(self.mats), 4), dtype=object)
+        reg = c.__dict__.setdefault("_quats", [])
         for i, M in enumerate(self.mats):
             k = next(c.fresh)
             x, y, z, w = [z3.Real("q%s!%d" % (n, k)) for n in "xyzw"]
+            orthogonality_lemmas(M)
+            if _lemma_quat_trace():
+                for (q2, M2) in reg + [((x, y, z, w), M)]:
+                    dot = x * q2[0] + y * q2[1] + z * q2[2] + w * q2[3]
+                    tr = sum((M[a][b] * M2[a][b] for a in range(3) for b in range(3)), ZERO)
+                    t = z3.Real("qdot!%d" % next(c.fresh))       # name for <p,q>: keeps the lemma quadratic in ONE symbol
+                    c.assume(t == dot)
+                    c.assume(4 * t * t == 1 + tr)
+                    c.assume(4 * dot * dot == 1 + tr)        # same lemma with the product written out (for monomial matching)
+            reg.append(((x, y, z, w), M))
             c.assume(x * x + y * y + z * z + w * w == 1)
             Q = [[1 - 2 * (y * y + z * z), 2 * (x * y - z * w), 2 * (x * z + y * w)],
                  [2 * (x * y + z * w), 1 - 2 * (x * x + z * z), 2 * (y * z - x * w)],
                  [2 * (x * z - y * w), 2 * (y * z + x * w), 1 - 2 * (x * x + y * y)]]
-            c.assume(z3.And([Q[r][q] == M[r][q] for r in range(3) for q in range(3)]))
+            c.assume(z3.And([Q[r][q] == M[r][q] for r in range(3) for q in range(3)]), heavy=_lemma_quat_trace())
             if canonical:
                 c.assume(w >= 0)
             vals = [w, x, y, z] if scalar_first else [x, y, z, w]
@@ -237,6 +283,50 @@ class Rotation:
 
     def magnitude(self):
         raise Unsupported("Rotation.magnitude")
+
+
+_LEMMAS = {}
+
+
+def _lemma_quat_trace():
+    """4<p,q>^2 = 1 + trace(R(p)^T R(q)) for unit quaternions: decided by z3 (about 0.05 s), cached per process"""
+    if "qt" not in _LEMMAS:
+        from . import solve
+        p = z3.Reals("lp_x lp_y lp_z lp_w")
+        q = z3.Reals("lq_x lq_y lq_z lq_w")
+
+        def Rq(x, y, z, w):
+            return [[1 - 2 * (y * y + z * z), 2 * (x * y - z * w), 2 * (x * z + y * w)],
+                    [2 * (x * y + z * w), 1 - 2 * (x * x + z * z), 2 * (y * z - x * w)],
+                    [2 * (x * z - y * w), 2 * (y * z + x * w), 1 - 2 * (x * x + y * y)]]
+        A, B = Rq(*p), Rq(*q)
+        tr = sum(A[k][i] * B[k][i] for i in range(3) for k in range(3))
+        dot = sum(a * b for a, b in zip(p, q))
+        r, _, _ = solve.check([sum(a * a for a in p) == 1, sum(a * a for a in q) == 1, z3.Not(4 * dot * dot == 1 + tr)], timeout=30, solvers=("z3",))
+        _LEMMAS["qt"] = (r == "unsat")
+    return _LEMMAS["qt"]
+
+
+def orthogonality_lemmas(M):
+    """Instances M^T M = I for a rotation matrix of the path, each proved by the solver from the unit-circle constraints
+    before it is assumed (they let the non-linear back ends see e.g. |R z| = 1 and trace(R^T R) = 3)."""
+    from . import solve
+    c = ctx()
+    done = c.__dict__.setdefault("_ortho_done", {})
+    key = tuple(M[a][b].get_id() for a in range(3) for b in range(3))
+    if key in done:
+        return
+    done[key] = M
+    facts = []
+    for a in range(3):
+        for b in range(a, 3):
+            lhs = z3.simplify(sum((M[k][a] * M[k][b] for k in range(3)), ZERO))
+            facts.append(lhs == (1 if a == b else 0))
+    goal = z3.And(facts)
+    rel, _ = solve.slice_for(c.pc(), [goal])
+    r, _, _ = solve.check(rel + [z3.Not(goal)], timeout=10, solvers=("z3",))
+    if r == "unsat":
+        c.assume(goal)
 
 
 def matrix_of_angles(seq, angles_deg):
